@@ -9,14 +9,26 @@ RULE = ("every request / notification reaches the peer in one of six ways chosen
         "function from a map parameter to a missing method (the peer's APIDispatcher answers 'no method') or to a notify-shaped "
         "method (never answered); app.QuerySession; app.Kick), and 'no route target' is produced in six ways (unknown service name, "
         "malformed route, route function yielding nothing / an unknown name, QuerySession / Kick for an unknown front); the peer "
-        "answers through the dispatcher's completion closure + Service.Response when it can; "
+        "answers through the dispatcher's completion closure + Service.Response when it can; a response is either an ANSWER "
+        "(code, error text, return value handed to Service.Response: nil / typed nil pointer / TestHello{I,S} / EmptyArg) or a RAW "
+        "ServiceResponse given field by field (ErrCode, ErrInfo, Type in none/TestHello/EmptyArg/unregistered, Body = encoding of "
+        "(I,S) - ZERO bytes when both are default - or junk), and the observation of a callback is the whole (err, msg) pair: which "
+        "error and its text, whether a message came with it, the message's dynamic type and every field; "
+        "fixed: 44 value histories = every answer {code 0, 999, -1} x {empty, non-empty text} x {nil, typed nil, all-default, "
+        "string only, int only, both, MinInt32 + 300-byte string, EmptyArg} through Service.Response / the API completion closure / "
+        "QuerySession, and every raw response {code 0, 999, -1} x {text} x {4 types} x {empty, string only, int only, both, junk}, "
+        "each followed by a duplicate of another kind; "
         "fixed: 12 routed histories (2 per way), 13 boundary histories (deadline = now / now-1 / now+1, id allocator at MaxReqId-1 and MaxReqId, late and "
         "duplicate replies, suppressed replies, undecodable bodies, nested no-route callbacks), 1 (quick) / 4 (thorough) histories "
         "scanned by the REAL 1 s timer; exhaustive: every op sequence of length <= 3 (quick) / 4 (thorough) over an 8-op alphabet "
-        "(request, re-entrant request, notify, reply ok for id 1, remote error for id 2, advance 30000, advance 1, tick) followed by "
+        "(request, re-entrant request, notify, the ALL-DEFAULT reply (zero-byte body) for id 1, remote error for id 2, advance 30000, advance 1, tick) followed by "
         "a completing suffix; random: 1-70 ops, up to ~40 outstanding requests, callback programmes nested to depth 2 (requests, "
         "unserialisable requests, notifies, no-route requests issued from inside callbacks), replies aimed at pending / completed "
-        "(late, duplicate) / unknown ids with kinds ok, nil, remote error, undecodable (unknown type or corrupt body), clock steps "
+        "(late, duplicate) / unknown ids with answers (58%: value fields default a third of the time, ints at 1/-1/127/128/Min/MaxInt32, "
+        "strings empty / ascii / multi-byte / >127 bytes, nil, typed nil, EmptyArg, success with a stray error text), remote errors "
+        "(20%: codes 999/1/-1/1000/Min/MaxInt32, empty text in 1/5, a return value alongside in 3/10) and raw responses (22%: any "
+        "code/text/type/body combination: typed with empty body, body without type, error code with type and body, unknown type, "
+        "junk), clock steps "
         "aimed at deadline-1/deadline/deadline+1, allocator started at MaxReqId-3..MaxReqId in 1/4 of the cases, 60% completed by "
         "scans after every deadline. Non-trivial = at least one request was completed by a callback other than NoService; "
         "distinct = distinct op sequences.")
@@ -24,16 +36,19 @@ TRUSTED_BASE = [
     "Coq 8.16.1 kernel + vm_compute (case evaluation, C01_wrap_refuted, Examples); no native_compute",
     "hand translation actorex/service/service.go (doRequestEx, AllocReqId, handleResponse, checkExpired, tryStartCheckTimer, ResponseEx) "
     "and node/app/serviceutils.go Request / Notify / QuerySession / Kick (routed and no-target branches) -> C01/Model.v, measured by "
-    "this correspondence run; the responding side (api.go APIDispatcher, utils.go DirectSendNotify, ResponseEx reply suppression) is "
-    "driven for real by the scripted peer but is not part of the model: to the model a routed request is a request",
+    "this correspondence run; of the responding side ResponseEx's field encoding (Model.encode) and reply suppression are modelled, "
+    "api.go APIDispatcher and utils.go DirectSendNotify are driven for real by the scripted peer but are not part of the model: to "
+    "the model a routed request is a request",
     "Go harness harness/c01 (actor driver: ops as messages through the service mailbox, scripted peer service, sender middleware "
     "recording sends, closures recording callbacks), verif hook actorex/service/verif_export.go, bin/check.py JSON->Coq term printer",
     "the order in which Go's map iteration yields expired requests inside one checkExpired is taken from the implementation's own "
     "trace (Corr.with_hints); the theorems hold for every order",
     "modelled not verified: protoactor (local Send = post to the target mailbox, FIFO per mailbox; supervision), cell2's mailbox and "
     "runservice loop (C09/C04), utils/timer (the armed 1 s timer calls checkExpired: sampled by the realtimer cases, otherwise the "
-    "harness fires the scan itself through VerifCheckExpired when the timer is armed), protobuf (de)serialisation of payloads "
-    "(opaque: ok payload / undecodable), int32 ids as Z below MaxReqId",
+    "harness fires the scan itself through VerifCheckExpired when the timer is armed), protobuf wire format (Model.v abstracts a body "
+    "to the two field values it encodes - zero bytes for the all-default message - or junk; remote.Serialize / Deserialize and the "
+    "type registry are driven for real, with the two test messages TestHello{I int32; S string} and EmptyArg), texts as numbers "
+    "(injective maps in the harness, 0 = empty), int32 ids and field values as Z",
     "measured, not proved: every callback and every operation ran on the goroutine of the service loop (runtime.Stack goroutine id), "
     "reported as the onloop bit of each observation and required by the monitor",
 ]
@@ -45,6 +60,8 @@ ASSUMPTIONS = [
     "user callbacks do not panic (a panic restarts the actor, which drops the pending table)",
     "the model is of the repaired code (hooks/C01-fix-arm-timer-on-register.patch, hooks/C01-fix-response-unknown-type.patch)",
     "the virtual clock common.VerifSetNowMs replaces wall-clock time; time never runs backwards",
+    "code as it is: a body that fails to parse completes the callback with the decode error TOGETHER WITH the partially filled "
+    "message proto.Unmarshal leaves behind (class RBad true); callers must test err before msg",
 ]
 TECHNIQUE = ("Coq proof: executable model of the pending-request table decomposed into primitive transitions; an executable trace "
              "acceptor proved sound for the property's trace clauses (at most once, matching, discard, drain) and proved to accept "
@@ -53,7 +70,9 @@ TECHNIQUE = ("Coq proof: executable model of the pending-request table decompose
              "implementation's own event trace")
 LEVEL_TEXT = ("Machine-checked Coq theorems over ALL operation lists (all interleavings of requests, re-entrant callbacks, replies, "
               "duplicates, late and unknown replies, clock steps and expiry scans in any map-iteration order): at most one callback "
-              "per request, result matching, discard without effect, |pending| = issued - completed, exactly-once and empty table in "
+              "per request, result matching, the callback's (err, msg) value = the decoding of the completing response's fields "
+              "(nil only for an untyped response, all-default / typed-nil replies arrive as the non-nil zero message, an error code "
+              "carries its text and no message), discard without effect, |pending| = issued - completed, exactly-once and empty table in "
               "complete histories, timer armed while anything is pending, id wrap-around guard. The model is tied to the Go code by "
               "running both on the same histories each run; 'callback runs in the service context' is a goroutine-id measurement.")
 
